@@ -29,7 +29,7 @@ REQUIRED_CLASSES = ["w=1", "w-equals-row-length", "w-one-more-than-row", "row-sh
                     "minimizers", "match_string", "motif", "count", "view-input", "call-history", "history-same-size-other-alphabet", "motif-alphabet-times-window>256"]
 BOUNDS = {"quick": "exhaustive core (<=3 rows, length <=4, two letters, w<=5, all functions); 400 sampled per function family",
           "thorough": "exhaustive core; 20000 sampled"}
-BUDGET_S = {"quick": 200, "thorough": 1500}
+BUDGET_S = {"quick": 300, "thorough": 1500}
 
 ALPHA = {"ACGT": "ACGT", "ACTG": "ACTG", "ACUG": "ACUG", "ACGTn": "ACGTN", "amino": "ACDEFGHIKLMNPQRSTVWY*"}
 MAXK = {"ACGT": 31, "ACTG": 31, "ACUG": 31, "ACGTn": 27, "amino": 14}
